@@ -220,8 +220,11 @@ def _run_scenario(inst, res):
     cfg = dict(template=name)
     feas_mask = gp._existence_infeasibility_mask
     all_x, _ = gp.get_all_discrete_x()
+    # every scenario's instance is derived first, the (then older) instances are examined afterwards: what an instance
+    # offers must not depend on which other instances were derived in the meantime
+    all_insts = [build_instance(gp, row) for row in rows.tolist()]
     for i_comb, row in enumerate(rows.tolist()):
-        inst_g = build_instance(gp, row)
+        inst_g = all_insts[i_comb]
         scen = dict(any_masked=False, any_spec_unsat=False, must_be_infeasible=False)
         for K in gp.connection_choice_nodes:
             mgr, node_map, exist_map, i_s, i_e, all_conn_nodes = gp._conn_choice_data_map[K]
@@ -322,6 +325,15 @@ def _run_scenario(inst, res):
             par_b = eff_b.get_max_conn_parallel()
             grp_rep_b = {c_: n_.rep for c_, n_ in list(zip(sb, gen_b.settings.src))+list(zip(tb, gen_b.settings.tgt))}
             spec_b = spec_from_graph(inst_g.graph, sb, tb, parallel=par_b, group_rep=grp_rep_b)
+            # without a grouping connector both views describe the same connectors with the same degrees: the number of
+            # parallel connections they allow (a library parameter, read per view) has to be the same
+            if 'group' not in name and par_a is not None:
+                res['obligations'] += 1
+                if par_a != par_b:
+                    _viol(res, 'scenario', dict(kind='parallel_cap_views_differ', **sig), cfg, dict(i_comb=i_comb, connectors=[str(c) for c in sb+tb]),
+                          dict(processor_view=par_a, graph_view=par_b), 'the same cap for the same present connectors')
+                else:
+                    res['discharged'] += 1
             try:
                 offered_b = [_matrix_of_edges(edges, sb, tb) for edges in K.iter_conn_edges(inst_g)]
             except Exception as e:  # noqa
@@ -448,6 +460,29 @@ def _run_scenario(inst, res):
                        [0 if v < 0 else v for v in np.array(row)[gp._sel_choice_idx_map].tolist()]) if len(row) else len(all_x)
         if scen['any_masked'] and n_listed > 0 and len(row) > 0 and not any(v < 0 for v in row):
             _viol(res, 'scenario', dict(kind='masked_scenario_listed', **sig_s), cfg, dict(i_comb=i_comb), dict(rows=n_listed), 'no row for a masked scenario')
+
+    # --- decode history (auxiliary, concrete): one processor decodes every listed design in order, then in reverse; each
+    # instance must carry the connection edges a fresh processor gives for the same vector
+    def conn_edges(gi):
+        return sorted((str(u), str(v)) for u, v, k_, d in gi.graph.edges(keys=True, data=True) if d.get('type') == EdgeType.CONNECTS)
+    xs = [list(map(float, x_)) for x_ in np.array(all_x).tolist()][:36]
+    if len(gp.connection_choice_nodes) >= 1 and xs:
+        fresh = []
+        for x_ in xs:
+            gp_f, _, _ = dsg_pool.make_processor(name)
+            gi, xi, ai = gp_f.get_graph(list(x_))
+            fresh.append((conn_edges(gi), [float(v) for v in xi], [bool(v) for v in ai]))
+        gp_h, _, _ = dsg_pool.make_processor(name)
+        for order in (range(len(xs)), reversed(range(len(xs)))):
+            for k_ in order:
+                res['obligations'] += 1
+                gi, xi, ai = gp_h.get_graph(list(xs[k_]))
+                got = (conn_edges(gi), [float(v) for v in xi], [bool(v) for v in ai])
+                if got != fresh[k_]:
+                    _viol(res, 'scenario', dict(kind='decode_depends_on_history', template=name), cfg, dict(x=xs[k_]),
+                          dict(edges=got[0], x=got[1]), dict(fresh_processor_edges=fresh[k_][0], x=fresh[k_][1]))
+                else:
+                    res['discharged'] += 1
 
 
 # ---------------------------------------------------------------------------------------------------------------------
